@@ -9,7 +9,7 @@ From Coq Require Import List String Permutation.
 From TS Require Import Model.Str Model.Outcome Model.Unicode Model.Syntax Model.Attrs Model.Types Model.Parse.
 From TS Require Import Model.Lang.TypeScript Model.Lang.Kotlin Model.Lang.Swift Model.Lang.Scala Model.Lang.Go Model.Lang.Python.
 From TS Require Import Spec.Lexers Spec.C15Spec Spec.C15Render.
-From TS Require Proofs.C15 Proofs.C15_Render Proofs.C15_Kotlin Proofs.C15_Go.
+From TS Require Proofs.C15 Proofs.C15_Render Proofs.C15_Kotlin Proofs.C15_Go Proofs.C15_Swift.
 Import ListNotations.
 
 (* ---- front end: parse_comment_attrs delivers one string per doc attribute (which is what `/// s`,
@@ -204,3 +204,20 @@ Theorem C15_go_render_partial : forall (uc : unicode) (cfg : go_config) custom_s
      forallb safe_go (c15_item_docs_helpers_first it)).
 Proof. exact Proofs.C15_Go.C15_go_render_partial. Qed.
 Print Assumptions C15_go_render_partial.
+
+(* ---- Swift, one item through the model's write_struct / write_enum (helper structs, cases, CodingKeys,
+   init(from:), encode(to:)) / write_type_alias, any configuration and printer state: code parts and
+   `/// ` fragments whose doc strings are exactly the strings of [c15_item_docs_helpers_first it], each
+   WITHOUT ITS TRAILING WHITE SPACE (swift.rs write_comment prints comment.trim_end(); the front end
+   delivers trimmed strings, so this is the identity on what parse_comment_attrs produces), in this
+   order; contained iff all are safe_sw, given neutral code parts (partial as above) ---- *)
+Theorem C15_sw_render_partial : forall (uc : unicode) (cfg : sw_config) it st text st',
+  sw_write_item uc cfg it st = Ok (text, st') ->
+  exists parts,
+    text = text_of (c15_file_pieces C15sw parts) /\
+    docs_of (c15_file_pieces C15sw parts) = c15_sw_item_docs uc it /\
+    (Forall (c15_code_neutral C15sw) parts ->
+     c15_contained C15sw LCode (mark (c15_file_pieces C15sw parts)) =
+     forallb safe_sw (c15_sw_item_docs uc it)).
+Proof. exact Proofs.C15_Swift.C15_sw_render_partial. Qed.
+Print Assumptions C15_sw_render_partial.
